@@ -466,8 +466,8 @@ func checkMuxRace(c muxRaceCase) error {
 }
 
 func init() {
-	pbt.Register(pbt.Sub[muxCase]{Name: "mux-routing", Weight: 60, Gen: genMux, Check: checkMux})
-	pbt.Register(pbt.Sub[muxRaceCase]{Name: "mux-concurrent", Weight: 0.5, Gen: genMuxRace, Check: checkMuxRace})
+	pbt.Register(pbt.Sub[muxCase]{Name: "mux-routing", Weight: 200, Gen: genMux, Check: checkMux})
+	pbt.Register(pbt.Sub[muxRaceCase]{Name: "mux-concurrent", Weight: 2, Gen: genMuxRace, Check: checkMuxRace})
 
 	pbt.Probe(knownDSTop, func() error {
 		return checkMux(muxCase{Patterns: []string{"a.", "b.a.", "c.b.a."}, QName: "c.b.a.", QType: dns.TypeDS, NQ: 1, ID: 1})
